@@ -86,6 +86,27 @@ def observe(case: Case, tr, args, issues, fill=None, what="trace"):
         issues.append(Issue("model.structure", str(e)))
         return None
     rec.assign = obs.valid_assignment(rec.ex)
+    if case.kinds & {"Switch", "OrElse", "Mix", "Mask"}:
+        # view stability: masking the trace's choice map with a true (run-time) flag rebuilds the
+        # switch / mask nodes and must not change which choices are valid, nor their values
+        try:
+            import jax.numpy as jnp
+
+            ex2 = obs.valid_assignment(obs.extract(node, chm.mask(jnp.asarray(True))))
+            if set(ex2) != set(rec.assign):
+                issues.append(Issue("model.structure", f"{what}: get_choices().mask(True) holds different valid addresses: {sorted(set(ex2) ^ set(rec.assign), key=repr)[:4]}", "rebuilt-view"))
+            else:
+                for p in ex2:
+                    if not _same_value(ex2[p], rec.assign[p]):
+                        issues.append(Issue("model.structure", f"{what}: get_choices().mask(True) changes the value at {p}", "rebuilt-view"))
+                        break
+        except obs.StructuralMismatch as e:
+            issues.append(Issue("model.structure", f"{what}: get_choices().mask(True): {e}", "rebuilt-view"))
+        except Exception:
+            # rebuilding a *stacked* choice map outside the vector combinator that produced it is
+            # not something any property promises (nested vector flags of different ranks meet in
+            # Mask.build): the view is simply not available for this trace
+            pass
     rec.score = float(np.asarray(tr.get_score()))
     rec.ret = build.from_real(tr.get_retval())
     _install_observed(node, rec.ret)
